@@ -2251,6 +2251,14 @@ func (c *Conn) handleRecordContent(
 ) (bool, packetOutcome, error) {
 	switch content := content.(type) {
 	case *protocol.ACK:
+		if !dtlsstate.CommonState(c.state).LocalVersion.Equal(protocol.Version1_3) {
+			// DTLS 1.2 has no ACK: this record is not the peer's. It is dropped
+			// without waking the state machine, which would answer any event
+			// after the handshake by sending its final flight again.
+			c.log.Debugf("discarded ACK record on a connection that is not DTLS 1.3")
+
+			return false, packetOutcome{}, nil
+		}
 		isLatestSeqNum := prepared.markPacketAsValid()
 		// Epoch 0 records are not authenticated: an unprotected ACK can only
 		// acknowledge unprotected records, it says nothing about protected
